@@ -155,7 +155,7 @@ def _run_bw(case):
         for i in range(t.nleaves):
             e = _cmp(A[i].grad, B[i].grad, 1e-11)
             worst = max(worst, min(e, 1e9))
-            if e > 1:
+            if not (e <= 1):  # NaN-safe
                 bad = f"leaf {i}: torchjd {None if A[i].grad is None else A[i].grad.tolist()} autograd {None if B[i].grad is None else B[i].grad.tolist()}"
                 break
         if bad:
@@ -223,7 +223,7 @@ def _run_mtl(case):
         for l in range(t.nleaves):
             e = _cmp(A["vals"][l].grad, Bt[l].grad, 1e-11)
             worst = max(worst, min(e, 1e9))
-            if e > 1:
+            if not (e <= 1):  # NaN-safe
                 bad = f"shared leaf {l}: torchjd {A['vals'][l].grad} autograd {Bt[l].grad}"
                 break
         if not bad:
@@ -236,7 +236,7 @@ def _run_mtl(case):
                         seenU = True
                     e = _cmp(pa.grad, pb.grad, 1e-11)
                     worst = max(worst, min(e, 1e9))
-                    if e > 1:
+                    if not (e <= 1):  # NaN-safe
                         bad = f"task {i} param {n_}: torchjd {pa.grad} autograd {pb.grad}"
                         break
                 if bad:
